@@ -103,3 +103,33 @@ package file
 //@ ensures [C01,skip-means-uptodate] result1 == nil ==> forall i int :: {result0[i]} 0 <= i && i < len(result0) && result0[i].Skipped ==> last[result0[i].Task] != "" && last[result0[i].Task] == cur(mapval(s.Globs), s.Tasks[result0[i].Task])
 //@ loop 0: invariant 0 <= $i && $i <= len(runOrder)
 //@ loop 0: decreases len(runOrder) - $i
+
+// ---- C17: spokfile discovery ----
+
+// a directory that may be searched: at or above the start directory and not above stop
+//@ pred candidate(d string, start0 string, stop string) := ancOrSelf(d, start0) && !properAnc(d, stop)
+
+//@ func above
+//@ props C17
+//@ ensures result == properAnc(dir, target)
+
+//@ func Find
+//@ props C17
+//@ terminates
+//@ ensures [C17,found] result1 == nil ==> candidate(foundDir, start, stop) && hasSpok(fsid, foundDir) && result0 == absOf(join2(foundDir, "spokfile"))
+//@ ensures [C17,nearest] result1 == nil ==> forall d string :: {ancOrSelf(d, start)} candidate(d, start, stop) && depth(d) > depth(foundDir) ==> !hasSpok(fsid, d)
+//@ ensures [C17,none] result1 != nil && !findReadErr ==> forall d string :: {ancOrSelf(d, start)} candidate(d, start, stop) ==> !hasSpok(fsid, d)
+//@ modifies foundDir, findReadErr
+//@ at entry: ghost findReadErr = false
+//@ at return ReadDir#0: ghost findReadErr = (err != nil)
+//@ at call Abs#0: ghost foundDir = start
+//@ at return Abs#0: ghost findReadErr = (err != nil)
+//@ loop 0: invariant ancOrSelf(start, old(start)) && !findReadErr
+//@ loop 0: invariant forall d string :: {ancOrSelf(d, old(start))} ancOrSelf(d, old(start)) && depth(d) > depth(start) && !properAnc(d, stop) ==> !hasSpok(fsid, d)
+//@ loop 0: decreases depth(start)
+//@ loop 1: invariant 0 <= $i && $i <= len(entries) && ancOrSelf(start, old(start)) && !properAnc(start, stop) && !findReadErr
+//@ loop 1: invariant forall k int :: {entries[k]} 0 <= k && k < len(entries) ==> entries[k] != nil
+//@ loop 1: invariant forall k int :: {entries[k]} 0 <= k && k < $i ==> !(!entIsDir(entries[k]) && entName(entries[k]) == "spokfile")
+//@ loop 1: invariant hasSpok(fsid, start) ==> 0 <= spokIdx(fsid, start) && spokIdx(fsid, start) < len(entries) && !entIsDir(entries[spokIdx(fsid, start)]) && entName(entries[spokIdx(fsid, start)]) == "spokfile"
+//@ loop 1: invariant forall d string :: {ancOrSelf(d, old(start))} ancOrSelf(d, old(start)) && depth(d) > depth(start) && !properAnc(d, stop) ==> !hasSpok(fsid, d)
+//@ loop 1: decreases len(entries) - $i
